@@ -18,7 +18,7 @@ cls('Tracker', file=F + 'base.py',
     ghost={'kind': TInt, 'S1': TNum, 'S2': TNum, 'lo': TNum, 'hi': TNum, 'lo0': TNum, 'hi0': TNum, 'E': TNum},
     invariant={
         'N_nonneg': lambda s: s.N >= 0,
-        'kind01': lambda s: z3.Or(s.kind == 0, s.kind == 1),
+        'kind01': lambda s: lor(s.kind == 0, s.kind == 1),
         'w_mean': lambda s: implies(s.kind == 0, R(s.N) * s.tracked_value == s.S1),
         'w_m2': lambda s: implies(s.kind == 0, R(s.N) * s.sum_squares == R(s.N) * s.S2 - s.S1 * s.S1),
         'w_m2_nonneg': lambda s: implies(s.kind == 0, s.sum_squares >= 0),
